@@ -169,3 +169,104 @@ def parse(text, assume=None):
     if p.peek() is not None:
         raise AnalysisBroken('scev: trailing tokens in %r' % text)
     return e
+
+
+class Forms:
+    """closed forms of one function's values as polynomials; pointer phis that SCEV cannot fold (a pointer walked by an inner loop and
+    carried around an outer loop) are composed here: p = init + (exit value of the inner recurrence - p) * n_outer"""
+
+    def __init__(self, A, name, assume=()):
+        import irrules
+        self.mod = A['#module']
+        self.f = self.mod.funcs.get(name)
+        if self.f is None or name not in A:
+            raise AnalysisBroken(name + ' not found')
+        self.S = A[name]
+        self.assume = {}
+        for op, a, b, pick in assume:
+            self.assume[(op, canon(parse(a)), canon(parse(b)))] = pick
+        self.loops = irrules.natural_loops(self.f)
+        self.params = [n for _, n in self.f.params]
+        self.memo = {}
+
+    def loop_of(self, block):
+        best = None
+        for h, L in self.loops.items():
+            if block in L and (best is None or len(L) < len(self.loops[best])):
+                best = h
+        return best
+
+    def count(self, loop):
+        s = self.S['counts'].get('%' + loop.lstrip('%'))
+        try:
+            return parse(s, self.assume) if s else None
+        except AnalysisBroken:
+            return None
+
+    def poly(self, v, depth=0):
+        if re.match(r'^-?\d+$', v):
+            return pconst(int(v))
+        if v in self.memo:
+            return self.memo[v]
+        s = self.S['vals'].get(v)
+        if s is None:
+            return pvar(v)
+        try:
+            p = parse(s, self.assume) if s != v else pvar(v)
+        except AnalysisBroken:
+            p = pvar(v)
+        # substitute unresolved pointer phis
+        out = {}
+        for mono, c in p.items():
+            term = {(): c}
+            for var in mono:
+                sub = self.resolve_phi(var, depth) if var.startswith('%') and var not in self.params and not var.startswith('%n%') and depth < 6 else None
+                term = pmul(term, sub if sub is not None else pvar(var))
+            out = padd(out, term)
+        self.memo[v] = out
+        return out
+
+    def resolve_phi(self, v, depth):
+        d = self.f.defs.get(v)
+        if d is None or d.op != 'phi':
+            return None
+        L = self.loop_of(d.block)
+        if L is None or d.block != L:
+            return None
+        init = [x for x, pb in d.extra['incoming'] if pb not in self.loops[L]]
+        back = [x for x, pb in d.extra['incoming'] if pb in self.loops[L]]
+        if len(init) != 1 or len(back) != 1:
+            return None
+        ex = self.S['exits'].get(back[0])
+        bs = self.S['vals'].get(back[0])
+        stepp = None
+        try:
+            if ex and ex != '<<Unknown>>':
+                stepp = padd(parse(ex, self.assume), pvar(v), -1)
+            elif bs:
+                stepp = padd(parse(bs, self.assume), pvar(v), -1)
+        except AnalysisBroken:
+            return None
+        if stepp is None or any(v in mono for mono in stepp):
+            return None
+        if any(x.startswith('n%') for mono in stepp for x in mono):
+            return None
+        return padd(self.poly(init[0], depth + 1), pmul(stepp, pvar('n%' + L)))
+
+    def addr(self, v):
+        """(base pointer symbol, offset polynomial): the base is a pointer parameter or a loaded pointer (SSA name of the load)"""
+        p = self.poly(v)
+        bases = []
+        for k, c in p.items():
+            if len(k) == 1 and c == 1 and k[0].startswith('%') and not k[0].startswith('%n%'):
+                if k[0] in self.params and any(t.rstrip().endswith('*') for t, n in self.f.params if n == k[0]):
+                    bases.append(k[0])
+                else:
+                    d = self.f.defs.get(k[0])
+                    if d is not None and d.op == 'load' and (d.ty or '').endswith('*'):
+                        bases.append(k[0])
+        if len(bases) != 1:
+            return None, p
+        q = dict(p)
+        del q[(bases[0],)]
+        return bases[0], q
